@@ -1,6 +1,10 @@
 import PyElf.Driver.Json
 import PyElf.Spec.Reloc
+import PyElf.Spec.RelocFile
 import PyElf.Model.Relocation
+import PyElf.Model.RelocationFile
+import PyElf.Model.Env
+import PyElf.Gen.Extra_C11
 open Lean
 namespace PyElf.Driver.C08
 open PyElf PyElf.Spec PyElf.Model PyElf.Model.Reloc
@@ -52,9 +56,97 @@ def secHdrOf (j : Json) : Except String SecHdr := do
            shOffset := ← jNat j "sh_offset", shSize := ← jNat j "sh_size", shEntsize := ← jNat j "sh_entsize",
            shLink := ← jNat j "sh_link" }
 
+/-! ### whole files: the only input is the byte string -/
+
+/-- the reader's parameters with the REGENERATED bundles and tables; no zlib (C08's images have no compressed
+    sections: a decompression request is answered `zlib.error`, which the library would not raise — a correspondence
+    failure, not agreement) -/
+def genP : C11.Params :=
+  { env := elfEnv, structsFor := elfStructsFor, machineClassOf := machineClassOf,
+    machineArchOf := Reloc.machineArchOf, dwarfStructsFor := dwarfStructsFor,
+    names := Gen.c11SectionNames, X := { decompress := fun _ _ => none, crc32 := fun _ => 0 } }
+
+def vResJson {α} (f : α → Json) : C11.V α → Json
+  | .ok v => Json.mkObj [("ok", f v)]
+  | .error e => Json.mkObj [("err", Json.str e.name)]
+
+def relObjObs (data : Bytes) (gets : List Nat) : C08.RelObj → Json
+  | .rel t => Json.mkObj [("rel", relTableObs data t gets)]
+  | .relr t => Json.mkObj [("relr", relrObs data t)]
+  | .other k => Json.mkObj [("other", Json.str k)]
+
+def bjson (b : Bytes) : Json := Json.mkObj [("b", Json.str b.toHex)]
+
+/-- one operation on the opened file -/
+def fileOp (data : Bytes) (f : R ElfFile) (op : Json) : Except String Json := do
+  let what ← jStr op "op"
+  let gets := (natsOf op "get").toOption.getD []
+  match what with
+  | "sec" =>
+    let i ← jNat op "i"
+    return resJson (relObjObs data gets) (do C08.getRelSection elfEnv (← f) i)
+  | "byname" =>
+    let name ← jHex op "name"
+    return resJson (fun o => match o with
+      | none => Json.null
+      | some x => relObjObs data gets x) (do C08.getRelSectionByName elfEnv (← f) name)
+  | "find" =>
+    let target ← jHex op "target"
+    return resJson (fun o => match o with
+      | none => Json.null
+      | some (i, s) => Json.arr #[jN i, bjson s.2.1, resJson jN (s.2.2.getNat "sh_offset")])
+      (do C08.fileFindRelocations elfEnv (← f) target)
+  | "apply" =>
+    let target ← jHex op "target"
+    let sec ← jHex op "section"
+    return resJson (fun o => match o with
+      | none => Json.null
+      | some b => bjson b) (do C08.fileApplyFor genP (← f) target sec)
+  | "dwarf" =>
+    let relocate ← jBool op "relocate"
+    let kw ← jStr op "kw"
+    let r : C11.V (Option Bytes) := do
+      let di ← C11.getDwarfInfo genP 2 none data relocate false
+      return (C11.descrOf di.secs kw).map (·.stream)
+    return vResJson (fun o => match o with
+      | none => Json.null
+      | some b => bjson b) r
+  | _ => throw s!"C08 file op: unknown {what}"
+
+/-- a description that carries only what the lookups of Spec/RelocFile.lean read: names, raw types, `sh_info` -/
+def lookupDesc (secs : List (Bytes × Int × Nat)) : ElfDesc :=
+  { cls := 64, le := true, mclass := "default", solaris := false, core := false, ehdr := [], shoff := 0, phoff := 0,
+    shentsize := 0, phentsize := 0, segments := [], shstrndx := 0,
+    sections := secs.map fun (nm, ty, info) =>
+      { name := nm, hdr := [("sh_type", .int ty), ("sh_info", .int info)], body := none, nameOff := 0 } }
+
+def optNat : Option Nat → Json
+  | none => Json.null
+  | some n => jN n
+
 def handle (req : Json) : Except String Json := do
   let k ← jStr req "k"
   match k with
+  | "file_api" =>
+    -- ELFFile(BytesIO(data)) and a list of operations on it, everything decoded from the bytes
+    let data ← jHex req "hex"
+    let f := openElf elfEnv elfStructsFor machineClassOf data
+    let ops ← jArr req "ops"
+    return Json.mkObj [("model", Json.arr (← ops.mapM (fileOp data f)).toArray)]
+  | "spec_find" =>
+    -- the standard's lookups over a list of (name, raw sh_type, sh_info): by name, by sh_info, and the convention
+    let secs ← (← jArr req "secs").mapM fun j => do
+      match j with
+      | .arr #[.str n, ty, info] =>
+        match Bytes.ofHex n with
+        | some nb => return (nb, ← jIntOf ty, ← jNatOf info)
+        | none => throw "bad name hex"
+      | _ => throw "bad section"
+    let d := lookupDesc secs
+    let target ← jHex req "target"
+    let t ← jNat req "tindex"
+    return Json.mkObj [("byname", optNat (Spec.C08.relSecByName d target)), ("byinfo", optNat (Spec.C08.relSecByInfo d t)),
+      ("follows", Json.bool (Spec.C08.namesFollowInfo d t target)), ("last", optNat (d.indexOfName target))]
   | "enc_rel" =>
     -- abstract table → bytes (Spec encoder), the observation C08 prescribes, well-formedness
     let c ← relCfgOf req
